@@ -533,7 +533,10 @@ class UnitSystemManager(Singleton):
         ret_tuple = self.ConvertToCurrent(
             scalar.GetCategory(), scalar.GetUnit(), scalar.GetValue(), unit_database
         )
-        return Scalar(*ret_tuple)
+        value, unit = ret_tuple
+        if scalar.GetQuantity().IsDerived():
+            return Scalar(value, unit)
+        return Scalar(value, unit, scalar.GetCategory())
 
 
 class _IdentityWrap:
